@@ -251,6 +251,7 @@ def run(res):
     if not ok:
         res.disagree('in-kernel replay differs from extracted model', None, None, out[-500:], sig={'entry': 'kernel-replay'})
     real_gdb_validation(res)
+    gdb_sessions(res)
     res.rule = ('closures over every signature of the type codes i u f s o n a h (optional version prefix, ? markers, 0..20 arguments, arguments after arrays of every length, '
                 'null/non-null strings and objects, typed/untyped new ids) read on client side, server side and when sent; plus the same closure printed (model Render) and decoded by log mode; '
                 'non-trivial = at least two argument kinds; distinct by closure')
@@ -293,6 +294,18 @@ def wire_of(cl, kind, target, t):
         else:
             wargs.append(['array', 4 * len(a[1])])
     return [t, [], [], 1 if kind == 2 else 0, target, sender, name, wargs]
+
+
+def gdb_sessions(res):
+    """closures as they are REPORTED inside a gdb session (resolution of what extraction returned, thread warning, listing)"""
+    import cmdgen
+    import gdbcheck
+    import random as _r
+    rnd = _r.Random(res.seed * 883 + 9)
+    n = 80 if res.tier == 'quick' else 3000
+    cases = [gdbcheck.build_case(rnd, cmds=lambda r: cmdgen.mixed(r, (1, 1, 3, 1, 1)), cmd_rate=0.1, config=[None, None, 0, 1, 1]) for _ in range(n)]
+    gdbcheck.run_cases(res, cases, lambda cat: cat.startswith('out.') or cat == 'final.ctrl.all', 'C09 (closures inside a gdb session)',
+                       theorem='C09_extract_exact + model of the plugin', nontrivial=lambda c, m: False, kernel_sample=4)
 
 
 def real_gdb_validation(res):
